@@ -9,8 +9,10 @@ import (
 	"fmt"
 	"os"
 	"path/filepath"
+	"runtime/debug"
 	"sort"
 	"strings"
+	"time"
 )
 
 // Failure is one input on which the implementation-level oracle says the property fails.
@@ -48,8 +50,35 @@ var (
 	replay = flag.String("replay", "", "replay one input (JSON)")
 )
 
+var curReport *Report
+
 func newReport(id string) *Report {
-	return &Report{Property: id, Seed: *seed, Tier: *tier, Histogram: map[string]int{}, Extra: map[string]interface{}{}}
+	curReport = &Report{Property: id, Seed: *seed, Tier: *tier, Histogram: map[string]int{}, Extra: map[string]interface{}{}}
+	return curReport
+}
+
+// guarded runs f under a watchdog.  vm.Run cannot be interrupted: when a run does not come back within the
+// limit the failing input is recorded, the report is written and the harness exits (the check then reports
+// the hang with that input instead of a crashed harness).
+func guarded(limit time.Duration, input func() interface{}, f func()) {
+	done := make(chan interface{}, 1)
+	go func() {
+		defer func() { done <- recover() }()
+		f()
+	}()
+	select {
+	case pv := <-done:
+		if pv != nil {
+			panic(pv)
+		}
+	case <-time.After(limit):
+		if curReport != nil {
+			curReport.fail(Failure{Key: curReport.Property + "-run-hang", What: "a call into the library did not return within " + limit.String(),
+				Input: input(), Want: "a result or an error", Got: "no return"})
+			curReport.write()
+		}
+		os.Exit(0)
+	}
 }
 
 func (r *Report) hist(k string) { r.Histogram[k]++ }
@@ -123,6 +152,24 @@ func main() {
 		fmt.Fprintln(os.Stderr, "unknown property", cmd)
 		os.Exit(2)
 	}
+	defer func() {
+		// a panic that escapes from the library into the harness is a failing input, not a crashed check
+		if r := recover(); r != nil {
+			if curReport == nil {
+				panic(r)
+			}
+			st := string(debug.Stack())
+			if i := strings.Index(st, "panic("); i >= 0 {
+				st = st[i:]
+			}
+			if len(st) > 1800 {
+				st = st[:1800]
+			}
+			curReport.fail(Failure{Key: curReport.Property + "-harness-panic", What: "a panic escaped from a library call that the harness makes without a recover (stack below)",
+				Input: fmt.Sprint(r), Want: "a result or an error", Got: st})
+			curReport.write()
+		}
+	}()
 	fn()
 }
 
